@@ -1376,6 +1376,68 @@ fn job_net_softmax_ce(rng: &mut Rng, variant: usize, kmax: usize) -> Fals {
     }
     f
 }
+/// the activation of a dense layer REPLACED after construction (`Network::set_activation`), across the soft-max
+/// boundary in both directions: the backward pass follows the activation the layer has now (soft-max output under
+/// cross-entropy: p - t; any other activation: its derivative at the pre-activation)
+fn job_net_set_activation(rng: &mut Rng, variant: usize, kmax: usize) -> Fals {
+    let mut f = Fals::new();
+    for _ in 0..8 {
+        let depth = 2 + variant % 2;
+        let mut b = NetB::new(Sh::Flat(rng.range(1, 4)));
+        let mut ok = true;
+        for k in 0..depth {
+            let outs = if k + 1 == depth { rng.range(2, 4) } else { rng.range(1, 4) };
+            let l = rdense(rng, outs, &SMOOTH);
+            ok = b.push(rng, l);
+            if !ok {
+                break;
+            }
+        }
+        if !ok {
+            continue;
+        }
+        let (mut fin, shapes) = b.finish();
+        let last = fin.layers.len() - 1;
+        // the FINAL configuration `fin` and the configuration the network is BUILT with `ini`
+        let mut ini;
+        let (idx, class) = match variant % 3 {
+            0 => {
+                // built with an element-wise output activation, switched to soft-max; cross-entropy
+                ini = fin.clone();
+                if let LayerSpec::One(Simple::Dense { act, .. }) = &mut fin.layers[last] { *act = Act::Softmax; }
+                fin.obj = Obj::CE;
+                (last, "output-to-softmax")
+            }
+            1 => {
+                // built with a soft-max output, switched to an element-wise activation; mean-squared error
+                ini = fin.clone();
+                if let LayerSpec::One(Simple::Dense { act, .. }) = &mut ini.layers[last] { *act = Act::Softmax; }
+                fin.obj = Obj::MSE;
+                (last, "output-from-softmax")
+            }
+            _ => {
+                // a HIDDEN layer built with soft-max, switched to an element-wise activation
+                ini = fin.clone();
+                if let LayerSpec::One(Simple::Dense { act, .. }) = &mut ini.layers[0] { *act = Act::Softmax; }
+                fin.obj = Obj::MSE;
+                (0, "hidden-from-softmax")
+            }
+        };
+        ini.obj = fin.obj;
+        let new_act = match &fin.layers[idx] { LayerSpec::One(Simple::Dense { act, .. }) => *act, _ => continue };
+        let x = gen_x(rng, shapes[0]);
+        let y = gen_target(rng, *shapes.last().unwrap(), fin.obj);
+        let mut n = match catch_unwind(AssertUnwindSafe(|| { let mut n = ini.build(); n.set_activation(idx, new_act.to()); n })) {
+            Ok(n) => n,
+            Err(_) => continue,
+        };
+        let key = |a: PAddr, _: &'static str| Some(format!("net/set-activation/{}/{}", class, if a.layer == idx { "params-of-the-switched-layer" } else if a.layer < idx { "params-of-earlier-layers" } else { "params-of-later-layers" }));
+        if check_net_grads_on(&mut f, rng, &fin, &mut n, &x, &y, kmax, &key, " [the network was built with another activation on this layer; set_activation installed the one shown]") {
+            break;
+        }
+    }
+    f
+}
 /// shape-preserving layer lists for a feedback block
 fn block_layers(rng: &mut Rng, inp: Sh, nl: usize, acts: &[Act], with_pool: bool) -> Vec<Simple> {
     let mut ls = vec![];
@@ -1561,6 +1623,7 @@ pub fn fals_c01(rng: &mut Rng, thorough: bool) -> Fals {
         ("net-clean", 96),
         ("net-dirty-conv", 48),
         ("net-softmax-ce", 12),
+        ("net-set-activation", 18),
         ("net-feedback", 48),
         ("net-pool-after-dense", 12),
     ] {
@@ -1572,6 +1635,7 @@ pub fn fals_c01(rng: &mut Rng, thorough: bool) -> Fals {
         "net-clean" => job_net_clean(r, v, kmax),
         "net-dirty-conv" => job_net_dirty_conv(r, v, kmax),
         "net-softmax-ce" => job_net_softmax_ce(r, v, kmax),
+        "net-set-activation" => job_net_set_activation(r, v, kmax),
         "net-feedback" => job_net_feedback(r, v, kmax),
         "net-pool-after-dense" => job_net_pool_after_dense(r, v, kmax),
         k => job_layer(r, k, v, kmax),
